@@ -9,9 +9,13 @@ CONFIG = dict(
              "incl. every non-ASCII byte, fail; nothing else fails; no panic), size_suffices (the encoder's n*138/100+1 digit "
              "buffer always fits, with the regenerated 138/100/1). Addresses, for an arbitrary hash H (only its width assumed): "
              "addr_decode_iff (a text decodes to a iff it is the canonical text of a, version 0, well-formed), "
-             "addrString_injective, addr_text_unique, decodeAddr_total. Algorithm level: faithful executable models of the limb "
-             "loops of fastBase58EncodingAlphabet/fastBase58DecodingAlphabet and of []rune(string); see notes/status/C15.md for "
-             "which of their equalities with the specification are theorems. The Go functions (base58.Encode/Decode, "
+             "addrString_injective, addr_text_unique, decodeAddr_total. Algorithm level, also THEOREMS: encFast_eq_spec and "
+             "decFast_eq_spec - faithful executable models of the limb loops of fastBase58EncodingAlphabet / "
+             "fastBase58DecodingAlphabet (uint32/uint64/byte wrap-around explicit, every index fault a `panic` outcome, the "
+             "`high` short-cut, the carry and zmask 'output number too big' tests, []rune(str) UTF-8 decoding) equal the "
+             "big-integer definition on EVERY byte string / string, so faults and the two 'too big' errors are unreachable "
+             "(loop invariants in Sky/C15/AlgoEnc.lean, AlgoDec.lean). That these hand-written loop models are what the Go "
+             "code does is carried by the correspondence: the Go functions (base58.Encode/Decode, "
              "DecodeBase58Address, AddressFromBytes, Address.Bytes/String, AddressFromPubKey, SumSHA256, HashRipemd160) are "
              "tied to specification AND loop models by a differential run: exhaustive over all byte strings of length <= 1 "
              "(quick) / <= 2 (thorough), all strings of length <= 2 / <= 3 over alphabet + look-alikes + non-ASCII, random "
@@ -20,11 +24,11 @@ CONFIG = dict(
              "alphabet literal, size formula, radix and address lengths; unrecognised shapes are rejected); the correspondence "
              "harness. Encode([]) = \"\" and Decode(\"\") is an error, so the round trip is stated for non-empty byte strings. "
              "The HTTP endpoint /api/v2/address/verify is a thin wrapper over DecodeBase58Address and is not exercised.",
-        technique="Lean 4 proof at specification level + translator-regenerated constants + differential correspondence of Go vs spec vs loop model",
+        technique="Lean 4 proof at specification AND algorithm level + translator-regenerated constants + differential correspondence of Go vs spec vs loop model",
     ),
     translators=["b58consts"],
     props_files=["Sky/Props/C15.lean"],
-    model_files=["Sky/C15/Spec.lean", "Sky/C15/Model.lean", "Sky/C15/Lemmas.lean", "Sky/C15/Drv.lean"],
+    model_files=["Sky/C15/Spec.lean", "Sky/C15/Model.lean", "Sky/C15/Lemmas.lean", "Sky/C15/AlgoEnc.lean", "Sky/C15/AlgoDec.lean", "Sky/C15/Drv.lean"],
     min_ops={"quick": 15000, "thorough": 400000},
     trusted_base=[
         "Lean 4.33.0 kernel; axioms allowed: propext, Classical.choice, Quot.sound (audited by #print axioms)",
